@@ -108,7 +108,7 @@ def run_lines(argv, lines, timeout=60, env=None):
     """Feed op lines, return (output lines, outcome, stderr-tail). outcome in ok|asan|ubsan|timeout|crash:<rc>."""
     data = "\n".join(lines) + "\n"
     try:
-        p = subprocess.run(argv, input=data, stdout=subprocess.PIPE, stderr=subprocess.PIPE, text=True,
+        p = subprocess.run(argv, input=data, stdout=subprocess.PIPE, stderr=subprocess.PIPE, text=True, errors="replace",
                            timeout=timeout, env=env)
     except subprocess.TimeoutExpired as e:
         out = e.stdout or ""
@@ -286,6 +286,17 @@ def check_obligations(props_module):
         else:
             res["discharged"].append(t)
     return res
+
+
+def leanchecker(module, timeout=1800):
+    """`lake env leanchecker <Module>`: Lean's independent re-checker replays the module's .olean in a fresh kernel."""
+    if shutil.which("leanchecker") is None:
+        return True, "leanchecker not installed (skipped)"
+    try:
+        p = subprocess.run(["lake", "env", "leanchecker", module], cwd=LEAN, stdout=subprocess.PIPE, stderr=subprocess.STDOUT, text=True, errors="replace", timeout=timeout)
+    except subprocess.TimeoutExpired:
+        return False, "leanchecker timeout"
+    return p.returncode == 0, p.stdout
 
 
 # ----------------------------------------------------------------------------- known findings / verdict
